@@ -62,7 +62,7 @@ var catalog = []CatEntry{
 	{"HRANDFIELD", "hash", true, []string{"{kh}", "{kh} {c}", "{kh} {c} WITHVALUES", "{kh} abc", "{kh} 1 BOGUS"}},
 	{"HLEN", "hash", true, []string{"{kh}"}},
 	{"HKEYS", "hash", true, []string{"{kh}"}},
-	{"HINCRBYFLOAT", "hash", false, []string{"{kh} {fld} 1.5", "{kh} {fld} abc"}},
+	{"HINCRBYFLOAT", "hash", false, []string{"{kh} {fld} 1.5", "{kh} {fld} abc", "{kh} {fld} inf", "{kh} {fld} nan", "{kh} {fld} 1e308"}},
 	{"HINCRBY", "hash", false, []string{"{kh} {fld} 5", "{kh} {fld} abc", "{kh} {fld} 1.5"}},
 	{"HGETALL", "hash", true, []string{"{kh}"}},
 	{"HEXISTS", "hash", true, []string{"{kh} {fld}"}},
